@@ -12,7 +12,7 @@ import sys
 import time
 from collections import Counter
 
-from . import core, known, pristine, shrink
+from . import core, known, pristine, reach, shrink
 
 VERIF_DIR = os.path.dirname(os.path.dirname(os.path.abspath(__file__)))
 MAX_CLASSES = 10
@@ -86,15 +86,21 @@ def _execute(chk, case):
 def _exec(a):
     chk, case = a
     core.apply_env(case.get("env"))
+    rh = reach.start() if reach.wanted(case.get("run_seed", 0)) else None
     res = _execute(chk, case)
+    if rh is not None:
+        res["lines"] = reach.stop(rh)
     return res
 
 
 def _gen_exec(a):
     chk, arm, i, run_seed, tier, want_sample, verif_seed = a
+    rh = reach.start() if reach.wanted(run_seed) else None  # (before generation: the transmitter side of a simulation is real code too)
     case = _gen((chk, arm, i, run_seed, tier, verif_seed))
     core.apply_env(case.get("env"))
     res = _execute(chk, case)
+    if rh is not None:
+        res["lines"] = reach.stop(rh)
     res.fault("env_logging_" + case["env"]["logging"], 0 if case["env"]["logging"] == "off" else 1)
     res.fault("env_warnings_as_errors", 1 if case["env"].get("warnings") == "error" else 0)
     res.fault("env_numpy_" + str(case["env"].get("numpy")), 1 if case["env"].get("numpy") else 0)
@@ -142,6 +148,8 @@ class Agg:
         self.errors = []
         self.digests = {}
         self.seeds = []
+        self.lines = {}  # library file -> set of function lines some sampled run executed (dsim/reach.py)
+        self.reach_runs = 0
 
     def merge(self, o):
         self.runs += o.runs
@@ -160,6 +168,9 @@ class Agg:
         self.errors.extend(o.errors[:5])
         self.digests.update(o.digests)
         self.seeds.extend(o.seeds)
+        for k, v in o.lines.items():
+            self.lines.setdefault(k, set()).update(v)
+        self.reach_runs += o.reach_runs
 
 
 def _work(spec):
@@ -210,6 +221,10 @@ def _work(spec):
         agg.cov |= res["cov"]
         agg.faults.update(res["faults"])
         agg.probes.update(res["probes"])
+        if res.get("lines") is not None:
+            agg.reach_runs += 1
+            for k, v in res["lines"].items():
+                agg.lines.setdefault(k, set()).update(v)
         if i == start:
             agg.seeds.append((arm, i, run_seed))
         if want_digests:
@@ -471,6 +486,8 @@ def evidence_doc(chk, tier, seed, agg, wall, reported, truncated, planned, worke
         "repo_under_test": core.repo_root(),
         "repo_head": _git_head(core.repo_root()),
     }
+    if agg.reach_runs:
+        cov["reach"] = reach.report(chk.pid, agg.lines, agg.reach_runs)
     extra = getattr(chk, "extra_evidence", None)
     if extra:
         cov.update(extra(tier, agg))
